@@ -65,6 +65,24 @@ theorem mkMatrix_wf {id rows columns : Nat} {data : List α} {r c : ν} {v : Vie
     · simp at h
   · simp at h
 
+theorem mkMatrixOf_wf {s v : View ν α} {r c : ν} (hs : s.WF) (h : mkMatrixOf s r c = some v) :
+    v.WF := by
+  simp only [mkMatrixOf] at h
+  split at h
+  · simp at h
+  · rename_i hl
+    split at h
+    · rename_i hvalid
+      simp only [Option.some.injEq] at h
+      subst h
+      rw [isValidShape_iff] at hvalid
+      have hn := hvalid.1
+      simp only [List.map_cons, List.map_nil, List.nodup_cons, List.mem_cons, List.not_mem_nil,
+        or_false, not_false_eq_true, List.nodup_nil, and_true] at hn
+      simp only [View.WF]
+      exact ⟨hs, by simpa using hl, hn⟩
+    · simp at h
+
 /-! ### sub-range and mask -/
 
 theorem clip_spec (r : IndexRange) (max : Nat) :
